@@ -206,3 +206,45 @@ def canaries(work, seed):
     meta, traces, rej = _validate(work, "plain", r2, mutant="corrupt_log", only="chain:map_inc", tier="quick", seed=seed)
     out.append(dict(name="corrupt-logged-field", detected=bool(rej), traces=meta.get("traces", 0), rejected=len(rej)))
     return out
+
+
+def replay(v):
+    """re-execute the program and calls of a violation on the current tree and validate them again"""
+    rp = v.get("replay") or {}
+    if "program" not in rp:
+        print("this violation carries no replayable scenario (design-level counter-example):")
+        print((v.get("detail") or "")[:1500])
+        return 2
+    work = os.path.join(core.WORK, "replay_%d" % os.getpid())
+    os.makedirs(work, exist_ok=True)
+    try:
+        ex = os.path.join(work, "explicit.json")
+        with open(ex, "w") as f:
+            json.dump([[rp["name"], rp["program"], rp["ops"]]], f)
+        out = os.path.join(work, "t")
+        rc, so, se = core.run_driver("sync_driver.py", ["--out", out, "--shards", 1, "--what", "plain", "--explicit", ex, "--only", "@@none@@"])
+        if rc != 0:
+            print("driver failed:", se[-800:])
+            return 2
+        files = sorted(glob.glob(os.path.join(out, "sync_plain_*.json")))
+        results = tv.validate(os.path.join(tlc.SPECS, "SyncFlowTrace.tla"), os.path.join(tlc.SPECS, "SyncFlowTrace.cfg"), files, out)
+        for f, r in results:
+            a, rj = tv.verdicts(r.out)
+            ex2 = tv.expected(r.out)
+            if rj:
+                tid, step, clause = rj[0]
+                print("REPLAY: program %s: after call %d the real code differs from SyncFlow in clause '%s'" % (rp["name"], step, clause))
+                print("   expected by the specification:", json.dumps(ex2.get(tid))[:1200])
+                with open(f) as fh:
+                    t = json.load(fh)[0]
+                st = t["steps"][step - 1] if 0 < step <= len(t["steps"]) else {}
+                print("   observed:", json.dumps({k: st.get(k) for k in ("raised", "dlog", "nst", "rc", "cbs")})[:1200])
+                print("VIOLATION property=%s replay=%s" % (v.get("property"), "(replayed)"))
+                return 1
+            if a:
+                print("REPLAY: program %s with %d calls is accepted by SyncFlowTrace on the current tree" % (rp["name"], len(rp["ops"])))
+                return 0
+        print("REPLAY: no verdict")
+        return 2
+    finally:
+        shutil.rmtree(work, ignore_errors=True)
